@@ -5,7 +5,9 @@ CFG = {
              "every consistent raw header (also at byte level, little endian); Header::from_raw(to_raw(h)) = h for "
              "every well-formed h in strict, permissive and permissive-with-true-file-length mode; every header the "
              "three constructors and any chain of with_size/with_dimensions/with_mipmap_count/with_mipmaps build is "
-             "well-formed; every header from_raw returns for a read raw header is well-formed (all modes, any "
+             "well-formed, and so is every header the struct-level constructors Dx9Header::new_* / Dx10Header::new_* and any "
+             "chain of their ten setters build unless it combines Texture3D with an array size other than 1 "
+             "(struct_builders_wf / _roundtrip); every header from_raw returns for a read raw header is well-formed (all modes, any "
              "file_len); parsing is a normalisation (idempotent, also with a file length); to_dx9/to_dx10 keep "
              "dimensions, mip count, pixel-info shape and - for everything but DX10 1D textures - the layout. The "
              "model is tied to the code by a differential run over raw word images, constructor/builder chains, "
@@ -18,7 +20,8 @@ CFG = {
     "level": "proof",
     "rule": "cases = table rows (DXGI codes 0..300 + out-of-range, known FourCC +-perturbations and 0..129, all 73 "
             "Formats: exhaustive for the finite tables) + constructors x builder chains (73 formats x 3 kinds x "
-            "boundary dims, PRNG chains) + raw word images (every word of 5 base images x boundary values, "
+            "boundary dims, PRNG chains) + struct-level constructors x setter chains (KS: all 162 DXGI codes, all 256 face "
+            "bytes, every mask row, PRNG chains over the ten setters) + raw word images (every word of 5 base images x boundary values, "
             "truncation at every word, flag combinations, all DX10 code x dimension x misc x array x alpha classes, "
             "mask rows + bit perturbations, all 64 DX9 face sets, PRNG perturbed valid images, PRNG fully random "
             "images; strict/permissive/file_len exact,+-1,arbitrary) + to_dx9/to_dx10 over all valid DXGI x alpha "
@@ -37,7 +40,7 @@ CFG = {
 
 
 def nontrivial(c, r):
-    if c.startswith("P ") or c.startswith("K "):
+    if c.startswith("P ") or c.startswith("K ") or c.startswith("KS "):
         return r.startswith("ok")
     if c.startswith("X "):
         return not r.startswith("d9=- d10=-")
